@@ -1,6 +1,7 @@
 SPECIFICATION LiveSpec
 CONSTANTS
   Nodes = {"a"}
+  SnapCarriesLP = TRUE
   Kinds = {"E"}
   MaxOps = 2
   MaxSys = 0
@@ -12,6 +13,7 @@ CONSTANTS
   MaxStep = 1
   MaxZombie = 0
   MaxSnap = 0
+  MaxForeign = 0
   Keeps = {0}
   Eager = FALSE
 INVARIANTS TypeOK
